@@ -267,13 +267,41 @@ pub fn check_final_tree(plan: &Plan, model: &Model, exec: &Exec, no_render: bool
     v
 }
 
+/// Paths the call wrote to and that still carry that data when the call returns: a file that
+/// the same call renamed away or removed again (a temporary file of an atomic replace) does not
+/// count, the rename target does.
 fn call_writes<'a>(exec: &'a Exec, c: &CallRecord) -> BTreeSet<&'a str> {
-    exec.log
+    let mut set: BTreeSet<&'a str> = BTreeSet::new();
+    let mut open_names: Vec<&'a str> = vec![];
+    for e in exec.log.iter().filter(|e| e.seq > c.seq_start && e.seq < c.seq_end && e.thread == c.thread && e.errno == 0) {
+        match e.op {
+            FsOp::OpenTrunc | FsOp::OpenRw | FsOp::Write => {
+                set.insert(e.key.as_str());
+                open_names.push(e.key.as_str());
+            }
+            FsOp::Rename => {
+                // whatever was written last under another name now lives here; names written in
+                // this call that no longer exist afterwards are dropped below
+                set.insert(e.key.as_str());
+            }
+            FsOp::Unlink => {
+                set.remove(e.key.as_str());
+            }
+            _ => {}
+        }
+    }
+    // names that vanished within the call (renamed away)
+    let renamed_to: BTreeSet<&str> = exec
+        .log
         .iter()
-        .filter(|e| e.seq > c.seq_start && e.seq < c.seq_end && e.thread == c.thread)
-        .filter(|e| matches!(e.op, FsOp::OpenTrunc | FsOp::OpenRw | FsOp::Write) && e.errno == 0)
+        .filter(|e| e.seq > c.seq_start && e.seq < c.seq_end && e.thread == c.thread && e.errno == 0 && e.op == FsOp::Rename)
         .map(|e| e.key.as_str())
-        .collect()
+        .collect();
+    if !renamed_to.is_empty() {
+        let after = c.snapshot.as_ref();
+        set.retain(|k| renamed_to.contains(k) || after.map(|t| t.contains_key(*k)).unwrap_or_else(|| exec.final_files.contains_key(*k)));
+    }
+    set
 }
 
 /// C11: exact mutation set per call, from the operation log.
@@ -476,9 +504,10 @@ pub fn check_imports(model: &Model, tree: &BTreeMap<String, Vec<u8>>, written: &
                 if !spec.ends_with(".js") {
                     bad.push("does not end in .js although ES-module imports are enabled");
                 }
-            } else if spec.ends_with(".js") {
-                bad.push("ends in .js although ES-module imports are disabled");
             }
+            // (without import-esm a specifier may still end in `.js` - a file called
+            // `codec.js.ts` is imported as "./codec.js"; whether the suffix is right is decided
+            // by resolving the specifier below)
             for b in &bad {
                 v.push(Violation::new("specifier-form", &["C08"], Some(file), format!("{when}: specifier {spec:?} {b}")));
             }
